@@ -89,11 +89,17 @@ def _rb(rng, n, alphabet=None):
     return bytes(rng.choice(alphabet) for _ in range(n))
 
 
-def planted(rng, gap, length, tail):
-    """X + gap fresh random bytes + X + tail: the second X can be coded as a back
-    reference with end offset `gap` and length `length`."""
+def planted(rng, gap, length, tail, periodic=False):
+    """X + gap bytes + X + tail: the second X can be coded as a back reference with end offset
+    `gap` and length `length`.  The gap is fresh random data (all literals) or, with `periodic`,
+    a random 300-byte block repeated (a few maximal-length references, cheap for TLC)."""
     x = _rb(rng, length)
-    return x + _rb(rng, gap) + x + _rb(rng, tail)
+    if periodic and gap > 600:
+        block = _rb(rng, 300)
+        filler = (block * (gap // 300 + 1))[:gap]
+    else:
+        filler = _rb(rng, gap)
+    return x + filler + x + _rb(rng, tail)
 
 
 def words_text(rng, vocab_size, total):
@@ -177,8 +183,8 @@ def gen_inputs(tier, rng):
         far = [(WINDOW - 1, 258, 0), (WINDOW - 1, 4, 2), (WINDOW - 2, 35, 0), (WINDOW, 258, 0), (WINDOW, 4, 300),
                (WINDOW + 1, 36, 1), (WINDOW + 257, 258, 0), (WINDOW + 258, 259, 5), (8319, 4, 0), (8320, 300, 1),
                (WINDOW - 129, 3, 0), (WINDOW - 1, 3, 0)]
-    for gap, ln, tail in far:
-        add("planted-far", planted(rng, gap, ln, tail))
+    for k, (gap, ln, tail) in enumerate(far):
+        add("planted-far", planted(rng, gap, ln, tail, periodic=(k % 6 != 0)))
     # random strings over small alphabets: many overlapping candidates, lazy matching
     for k in range(60 if thorough else 24):
         alpha = [b"ab", b"abc", b"abcd", b"0123456789abcdef"][k % 4]
